@@ -47,7 +47,7 @@ ASSUMPTIONS = ["the requested range coincides with the equal partition (binmin=a
                "when run() returns normally every output must agree completely with the model, whether or not a fault was injected; when it fails after an "
                "injected fault (OSError / crash) only prefix-consistency of what is on the simulated disk is required",
                "convergence within the step cap is not required (BUDGET); non-termination of the block/cluster moves is BUDGET"]
-PROBES = ["prelude_on_related_sequence", "step_decided_without_draw", "rerun_on_same_machine", "kappa_above_one_binned_to_top", "stopped_at_f_equal_threshold", "flatcheck_exact_tie", "start_outside_range", "proposal_outside_range_with_u_zero", "u_just_below_P", "u_just_above_P", "accepted_uphill", "rejected_step",
+PROBES = ["run_with_no_steps", "prelude_on_related_sequence", "step_decided_without_draw", "rerun_on_same_machine", "kappa_above_one_binned_to_top", "stopped_at_f_equal_threshold", "flatcheck_exact_tie", "start_outside_range", "proposal_outside_range_with_u_zero", "u_just_below_P", "u_just_above_P", "accepted_uphill", "rejected_step",
           "flatcheck_flat", "flatcheck_not_flat", "converged", "step_cap_hit", "hook_assisted", "seam_only", "fs_fault_fired", "crash_fired",
           "restart_into_dirty_dir", "restart_after_crash", "oserror_propagated", "partial_range", "warm_sequence_object", "permutants_api",
           "iteration_ge_3", "same_bin_accept", "multi_bin_visit"]
@@ -90,6 +90,8 @@ def gen_plan(streams, tier):
            "c": rnd.choice((0.7, 0.6, 0.4, 0.3, 0.3, 0.2, 0.2, 0.1, 0.07, 0.05))}
     if rnd.random() < 0.08:
         cfg["conv_exact_k"] = rnd.choice((1, 2, 2, 3))       # threshold equal to the k-th value of f itself
+    elif rnd.random() < 0.04:
+        cfg["c"] = rnd.choice((1.1, 1.5, 3.0))               # threshold above the initial f = e: the run must not take a single step
     frnd = streams.stream("faults")
     fault = {"kind": "none"}
     if frnd.random() < 0.4:
@@ -148,6 +150,7 @@ def corpus():
     mk("threshold_equals_f_after_2_roots", "GKEGKEKEGS", {"M": 2, "a": 0, "b": 2, "flatchk": 4, "flatcrit": 0.3, "c": 0.3, "conv_exact_k": 2}, accept_policy="uniform")
     mk("related_sequence_analysed_first", "GKEGKEKEGS", full, prelude={"seq": "ARDASDRDAT", "how": "dmax_perm"})
     mk("machine_for_related_sequence_first", "GKEGKEKEGS", full, prelude={"seq": "ARDASDRDAT", "how": "machine"})
+    mk("threshold_above_e_no_steps", "GKEGKEKEGS", {"M": 5, "a": 0, "b": 5, "flatchk": 4, "flatcrit": 0.5, "c": 1.2})
     mk("seam_only_mode", "GKEGKEKEGS", full, no_hook=True)
     mk("uniform_policy_many_iterations", "KEKEGG", {"M": 3, "a": 0, "b": 3, "flatchk": 30, "flatcrit": 0.2, "c": 0.05}, accept_policy="uniform",
        move_weights=[1, 1, 0, 0])
@@ -802,8 +805,12 @@ def _execute(plan, ctx, fs, wl, seqmod, permmod, Sequence, SequenceException, cl
     cur = {"sim": None}
     move_driver = UniformDriver(ctx.streams.stream("move_tape"), bias=0.3 if plan.get("move_rng") == "biased" else 0.0, ctx=ctx)
 
+    idle = ctx.streams.stream("wl_idle")
+
     class WLDriver(object):
         def random(self, who):
+            if cur["sim"] is None:
+                return idle.random()          # a machine outside the observed runs (the prelude)
             return cur["sim"].wl_random(who)
 
         def bits(self, who, k):
@@ -926,6 +933,8 @@ def _execute(plan, ctx, fs, wl, seqmod, permmod, Sequence, SequenceException, cl
         if len(sim.bins_visited) >= 3:
             ctx.probe("multi_bin_visit")
         if outcome == "returned":
+            if sim.model.steps == 0 and not sim.started:
+                ctx.probe("run_with_no_steps")
             sim.finish_normal(ret)
             ctx.probe("converged")
             ctx.count("runs_converged")
